@@ -51,6 +51,12 @@ def probe_texts(shadow, real_tree, rnd, n=12):
         out.append(mutate(t, rnd))
         c = rnd.choice([(' ', ' '), ('x', 'y'), ('\n', '\n'), ('a', ''), ('', 'a'), ('(', ')'), ('0', '9')])
         out.append(c[0] + t + c[1])
+        # the case of single letters swapped, per occurrence (round 8: a flag lost on a back reference only shows on
+        # texts that repeat a word in the other case, which swapping the whole text never produces)
+        cased = [i for i, ch in enumerate(t) if ch.swapcase() != ch and len(ch.swapcase()) == 1]
+        if cased and len(t) < 80:
+            for i in dict.fromkeys([cased[0], cased[-1], rnd.choice(cased)]):
+                out.append(t[:i] + t[i].swapcase() + t[i + 1:])
         if len(t) < 40:
             out.append(t + ' ' + t)
             out.append(t + t)
